@@ -123,7 +123,8 @@ class Analysis:
                 continue
             seen.add(key)
             bad_nodes.add((id(node), rule))
-            self.res.bad(rule, f"{fi.qualname}:{src(node)[:50]}", fi.site(node), fi.qualname, msg, construct=src(node)[:200])
+            # the construct starts with a description of *what* is wrong (stable under rewrites of the statement), then the source
+            self.res.bad(rule, f"{fi.qualname}:{src(node)[:50]}", fi.site(node), fi.qualname, msg, construct=(msg.split(":")[0][:90] + " :: " + src(node))[:300])
         seen = set()
         n = 0
         for fi, node, rule, what in self.checks:
